@@ -713,6 +713,12 @@ fn scenarios(env: &Env, quick: bool) -> Vec<Scenario> {
             add("workspace-add", &["workspace", "add", "../ws2"]);
         }
     }
+    // interleave the backends, so that a wall-clock cap cuts commands, not a whole backend
+    let order = [
+        "describe", "edit-other", "status-snapshot", "new", "commit", "squash", "abandon", "rebase",
+        "bookmark-create", "undo", "op-restore", "workspace-add",
+    ];
+    out.sort_by_key(|s| (order.iter().position(|n| *n == s.name).unwrap_or(99), s.backend));
     out
 }
 
@@ -765,7 +771,14 @@ fn main() {
     let mut all_stale = 0u64;
     let mut all_not_killed = 0u64;
     let mut total_points_known = 0u64;
+    let wall_cap = ctx.pick(600.0, 1500.0);
+    let mut not_run: Vec<String> = vec![];
     for sc in &scs {
+        if ctx.elapsed_s() > wall_cap {
+            // wall-clock cap: the remaining commands are not enumerated in this run
+            not_run.push(format!("{}/{}", sc.backend, sc.name));
+            continue;
+        }
         let base = baseline(&env, sc);
         // kill points: every distinct (syscall, k) that has an interesting occurrence
         let mut points: BTreeMap<(String, usize), String> = BTreeMap::new();
@@ -862,9 +875,11 @@ fn main() {
                distinct non-trivial = distinct (thread, call, index) positions at which a kill was observed to land"
             .into(),
         samples,
-        exhaustive: true,
+        exhaustive: not_run.is_empty(),
         extra: [
             ("per_scenario".to_string(), json!(per_scenario)),
+            ("commands_not_enumerated_because_of_the_wall_clock_cap".to_string(), json!(not_run)),
+            ("wall_clock_cap_s".to_string(), json!(wall_cap)),
             ("mutating_calls_total".to_string(), json!(total_points_known)),
             ("crashes_leaving_old_head".to_string(), json!(all_before)),
             ("crashes_leaving_new_head".to_string(), json!(all_after)),
